@@ -179,7 +179,7 @@ func (pe *PE) eval(st *peState, e ast.Expr) Val {
 		}
 		return Val{}
 	case *ast.SelectorExpr:
-		if v, ok := st.sel[types.ExprString(x)]; ok {
+		if v, ok := st.sel[pe.selKey(x)]; ok {
 			return v
 		}
 		if pe.selOracle != nil {
@@ -652,7 +652,7 @@ func (pe *PE) assign(st *peState, lhs ast.Expr, v Val) {
 			st.env[o] = v
 		}
 	case *ast.SelectorExpr:
-		st.sel[types.ExprString(x)] = v
+		st.sel[pe.selKey(x)] = v
 	}
 }
 
@@ -1204,7 +1204,7 @@ func originField(info *types.Info, fn *ast.FuncDecl, e ast.Expr, names ...string
 			switch x := n.(type) {
 			case *ast.SelectorExpr:
 				for _, nm := range names {
-					if x.Sel.Name == nm {
+					if astFieldName(info, x.Sel) == nm {
 						res = nm
 						return false
 					}
@@ -1504,4 +1504,9 @@ func selfAppendedLocal(info *types.Info, node ast.Node) types.Object {
 		return nil
 	}
 	return res
+}
+
+// selKey: the key under which a selector lvalue is tracked; the field is named by its listed name
+func (pe *PE) selKey(x *ast.SelectorExpr) string {
+	return types.ExprString(x.X) + "." + astFieldName(pe.info, x.Sel)
 }
